@@ -108,6 +108,12 @@ pub async fn publish_handler(w: Rc<World>, conn: usize, p: v5::Publish, route: &
     w.gate_exit(gid, outcome.clone());
     match outcome {
         Outcome::Ok => Ok(p.ack()),
+        // an application refuses a publish in one of two styles: an error that `TryFrom<E> for PublishAck`
+        // maps to the negative acknowledgement, or (QoS 1/2 only) Ok with an acknowledgement carrying the code
+        Outcome::Neg(c) if gid % 2 == 1 && p.packet().packet_id.is_some() => match codec::PublishAckReason::try_from(c) {
+            Ok(rc) => Ok(p.ack().reason_code(rc)),
+            Err(_) => Err(AppErr::Neg(c)),
+        },
         Outcome::Neg(c) => Err(AppErr::Neg(c)),
         _ => Err(AppErr::Fatal),
     }
